@@ -12,6 +12,7 @@ import CdnsVerif.Driver.Sch
 import CdnsVerif.Driver.Blk
 import CdnsVerif.Driver.Bld
 import CdnsVerif.Driver.Rdq
+import CdnsVerif.Driver.Stk
 open CdnsVerif.Driver
 
 def dispatch (line : String) : String :=
@@ -35,6 +36,7 @@ def dispatch (line : String) : String :=
   | "prjd" :: rest => Bld.handlePrjd rest
   | "rdq" :: rest => Rdq.handle rest
   | "mrgb" :: rest => Rdq.handleMrgb rest
+  | "stk" :: rest => Stk.handle rest
   | _ => "bad-request"
 
 partial def loop (h : IO.FS.Stream) (out : IO.FS.Stream) : IO Unit := do
